@@ -150,7 +150,10 @@ def check_arc(spec, case, acc):
     tb, ncrit = arc_true_box(seg)
     size = abs(seg.radius.real) + abs(seg.radius.imag) + abs(seg.center)
     acc.case(case, cls='A/crit%d/%s' % (min(ncrit, 4), 'axis_aligned' if spec[2] % 90 == 0 else 'rotated'), nontrivial=ncrit > 0)
-    check_box(seg, tb, 1e-9 * size, case, acc, {'kind': 'A', 'rotated': spec[2] % 90 != 0, 'sweep': bool(spec[4])})
+    # bbox() may use the nominal end points while the curve is point(t); how far those are apart
+    # is C04's question, so that distance is granted here
+    slack = 2 * max(abs(seg.point(0) - seg.start), abs(seg.point(1) - seg.end))
+    check_box(seg, tb, max(1e-9 * size, slack), case, acc, {'kind': 'A', 'rotated': spec[2] % 90 != 0, 'sweep': bool(spec[4])})
 
 
 PATHS = [('L_diagonal', 'C_arch', 'A_ellipse_rot30'), ('Q_generic',), ('C_elevated_quad_rounded', 'L_vertical'),
